@@ -282,7 +282,11 @@ func c18DFA(c *Ctx) {
 			c.Ob(rule, fmt.Sprintf("alphabet/%d", v), drv.Decl.Pos(), false, true, "descriptor.proto tag %d is not an input of any state of the automaton", v)
 		}
 	}
-	const maxLen = 8
+	// bounded-exhaustive: every path up to maxLen; the thorough tier goes one level deeper (x|alphabet| paths)
+	maxLen := 8
+	if c.Tier == "thorough" {
+		maxLen = 9
+	}
 	total, bad := 0, 0
 	firstBad := ""
 	path := make([]int64, 0, maxLen)
